@@ -666,9 +666,12 @@ func tryGoReplay(g *Gen, vdir, pid string, r *Result, dir, base string) *goRepla
 			fmt.Fprintf(&log, "real code agrees with the model: %s\n", want)
 		}
 	}
-	rep.Reproduced = match && compared > 0
-	if rep.Reproduced {
-		log.WriteString("REPRODUCED: on these inputs the real function returns exactly the results for which the clause is false\n")
+	// Agreement on nil-ness / scalar results shows the real code takes the model's path, but the
+	// failed clause may speak about abstract predicates (hashes, signatures, ghost state) that a
+	// concrete run cannot evaluate: that is NOT counted as a failing input.
+	rep.Reproduced = false
+	if match && compared > 0 {
+		log.WriteString("the real function returns the results the model predicts on these inputs; the clause itself involves state or abstract predicates a concrete run cannot evaluate, so no failing input is claimed\n")
 	}
 	rep.Log = log.String()
 	return rep
